@@ -21,8 +21,8 @@ CHECKS = {
         ref="DESIGN.md §4 C07",
     ),
     "C14": dict(
-        text="Decides Etot = Eelec + Enuc (+ active excitation energy), Hf = Etot - Eiso + atomic heats (the spec's own MOPAC table), gap = LUMO - HOMO (highest occupied / lowest virtual entry of the reported orbital energies, per spin for UHF; ascending on a fresh molecule object, ascending up to the orbital-tracking permutation inside the occupied and virtual blocks on a re-evaluated closed-shell object), every reported (orbital, energy) pair is an eigenpair of the Fock matrix the solver returned, charges follow from the density diagonal and sum to the molecular charge, electron count, dipole translation behaviour (invariant for neutral molecules, shift = charge x displacement for ions) and rotation covariance, and the currency of every published attribute. TLC checks Publish (paths x published attribute sets: Current) and evaluates the identities on fixed-point integers (1e-6 eV / 1e-6 e) logged from the real API after the second of two calls on one molecule object at different (displaced or 90-degree rotated) geometries, plus a third calculation at a translated geometry: molecules/ions/padded batches in both row orders x MNDO/AM1/PM3/PM6_SP x solvers x RHF/UHF x CIS/RPA active states incl. the top root x XL-BOMD path.",
-        note="Not decided: the hybridisation term of the dipole formula beyond its translation/rotation behaviour. The Fock matrix is the one returned by the code's solver (captured at the scf_loop boundary). On a re-evaluated closed-shell molecule object the code deliberately keeps orbital energies in tracked-orbital order; 'ascending' is required of fresh objects only (DESIGN.md A.5).",
+        text="Decides Etot = Eelec + Enuc (+ active excitation energy), Hf = Etot - Eiso + atomic heats (the spec's own MOPAC table), gap = LUMO - HOMO (highest occupied / lowest virtual entry of the reported orbital energies, per spin for UHF; ascending on a fresh molecule object, ascending up to the orbital-tracking permutation inside the occupied and virtual blocks on a re-evaluated closed-shell object), every reported (orbital, energy) pair is an eigenpair of the Fock matrix the solver returned, charges follow from the density diagonal and sum to the molecular charge, electron count, the dipole is the one implied by the published charges, coordinates and density (point charges plus the one-centre s-p hybridisation term), its translation behaviour (invariant for neutral molecules, shift = charge x displacement for ions) and rotation covariance, and the currency of every published attribute. TLC checks Publish (paths x published attribute sets: Current) and evaluates the identities on fixed-point integers (1e-6 eV / 1e-6 e) logged from the real API after the second of two calls on one molecule object at different (displaced or 90-degree rotated) geometries, plus a third calculation at a translated geometry: molecules/ions/padded batches in both row orders x MNDO/AM1/PM3/PM6_SP x solvers x RHF/UHF x CIS/RPA active states incl. the top root x XL-BOMD path.",
+        note="The products q_a R_a and dd_a P(s,p) of the dipole formula are formed by the driver (own one-line formula for the charge separation dd from the orbital exponents) and summed by TLC. The Fock matrix is the one returned by the code's solver (captured at the scf_loop boundary). On a re-evaluated closed-shell molecule object the code deliberately keeps orbital energies in tracked-orbital order; 'ascending' is required of fresh objects only (DESIGN.md A.5).",
         tech="explicit TLA+ module (Publish) whose identities TLC evaluates on fixed-point logs of the real published attributes",
         ref="DESIGN.md §4 C14",
     ),
